@@ -15,7 +15,8 @@ RULE = (
     "'pool1'/'pool2' = ThreadPoolScheduler(1|2) on Engine DET's cooperative executor, 'eventloop' = EventLoopScheduler; "
     "'immediate' = ImmediateScheduler) by a main thread and optionally a second, cancelling thread. Operations: "
     "['s', kind, d, body] = schedule / schedule_relative(d ms as float | timedelta) / schedule_absolute(EPOCH + d ms as an aware datetime in UTC, +02:00 or "
-    "-05:30) with an "
+    "-05:30; d ranges over zero, negative, a few ms AND day-sized / multi-day values (1 day + 1..5 ms, 25 h, exactly 1, 2 "
+    "and 3 days) in every one of these argument forms, so the whole delay incl. its whole-day part must elapse on the fake clock) with an "
     "action that logs start, runs `body` (cancels, and nested schedule operations issued on the scheduler object the action "
     "was handed) and logs end; ['x', ref] = dispose the disposable returned for schedule operation number ref (if that call "
     "has returned); ['w', ms] = sleep ms of fake time (this is what lets the fake clock reach a due time while the program "
@@ -23,7 +24,8 @@ RULE = (
     "become runnable at the same instant and the schedule decides who goes first, at line granularity) and 'after start' "
     "are all produced). Time is Engine DET's fake clock; threading.Timer, Thread, Condition, Event and the executor inside "
     "reactivex are the cooperative replacements of vlib/det.py, every timer/loop/worker thread is a controlled logical thread. "
-    "det-enum: every schedule with <=1 (quick) / <=2 (thorough) preemptions of 12 fixed small programs x 5 scheduler kinds; "
+    "det-enum: every schedule with <=1 (quick) / <=2 (thorough) preemptions of 16 fixed small programs (4 of them with day-sized "
+    "delays, sleeps of a day and dispose a day before / exactly at a day-sized due time) x 5 scheduler kinds; "
     "det-gen: generated programs (1-5 operations or schedule/sleep/dispose gadgets, optional cancelling thread) with <=3 drawn "
     "preemption points; "
     "imm-enum / imm: ImmediateScheduler on one thread (DET free mode), all operation lists up to 3 over a small alphabet + "
@@ -51,12 +53,15 @@ ASSUMPTIONS = [
     "Timer/executor of vlib/det.py mirror the stdlib ones (Timer.run = wait(interval) then test the cancel flag then call)",
     "bounds: <=2 program threads, <=10 schedule operations, nesting depth 1, <=2 preemptions exhaustive / <=3 drawn",
     "EventLoopScheduler.dispose() and periodic scheduling are covered by C31/C35, not here",
+    "delay magnitudes: <= 3 days + a few ms (fake clock, integer microseconds; float seconds of that size are exact to well "
+    "below 1 us); larger magnitudes (weeks, years, timedelta.max) and periodic scheduling with day-sized periods are not generated",
 ]
 
 TIMEOUT = {"quick": 400, "thorough": 3600}  # runner: wall-clock cap per shard
 # absolute due times are given as aware datetimes: 'abs' in UTC, 'abse' / 'absw' the same instant expressed in +02:00 / -05:30
 ABS_TZ = {"abs": timezone.utc, "abse": timezone(timedelta(hours=2)), "absw": timezone(timedelta(hours=-5, minutes=-30))}
 SKS = ("timeout", "newthread", "pool1", "pool2", "eventloop")
+DAY = 86_400_000  # ms; delays of >= 1 day exercise the .days component of the timedelta / the magnitude of the float
 number, now_us = schedrun.number, schedrun.now_us
 
 
@@ -168,6 +173,10 @@ def analyse(world, complete=True):
             timed[sid] = due[sid] > clk
             if timed[sid]:
                 facts.add("timed:" + ("abs" if k in ABS_TZ else "rel"))
+                if due[sid] - clk >= DAY * 1000:
+                    facts.add("day-delay:" + ("abs" if k == "abs" else "abs-non-utc" if k in ABS_TZ else "float" if k == "rel" else "timedelta"))
+                    if due[sid] - clk >= 2 * DAY * 1000:
+                        facts.add("multi-day-delay")
             elif k in ABS_TZ:
                 facts.add("abs-not-future")
             if k in ("abse", "absw"):
@@ -186,6 +195,8 @@ def analyse(world, complete=True):
                 facts.add("late")
             if timed[sid]:
                 facts.add("timed-ran")
+                if due[sid] - call_clk[sid] >= DAY * 1000:
+                    facts.add("day-delay-ran")
         elif kind == "end":
             end[sid] = i
             ends.append(i)
@@ -344,6 +355,12 @@ def _det_programs():
     yield [[_S("rel", 1, [["w", 2]]), _S("rel", 1)], [["w", 2], ["x", 1]]]
     yield [[_S("now", 0, [_S("rel", 1, [["w", 1], ["x", 2]]), _S("rel", 1)])]]
     yield [[_S("rel", 1, [["w", 2]]), _S("rel", 2), _S("abse", 4)]]  # an action sleeps past the next due time: explained lateness
+    # day-sized and multi-day delays in every argument form (float seconds, timedelta, aware datetime UTC / non-UTC): the
+    # whole delay, including whole days, must elapse on the fake clock (virtual waiting costs nothing)
+    yield [[_S("reltd", DAY + 2), _S("rel", DAY + 3), ["w", 5], _S("rel", 2 * DAY)]]
+    yield [[["w", 1], _S("abs", DAY + 2), _S("absw", 3 * DAY + 1), _S("abse", 2 * DAY + 1)]]
+    yield [[_S("reltd", 2 * DAY), _S("rel", 90_000_000), ["w", DAY], ["x", 0]]]  # 2 days; 25 h as float; dispose the first a day before due
+    yield [[_S("rel", DAY + 1, [_S("reltd", DAY)]), ["w", DAY + 1], ["x", 0]]]  # dispose at due after a day; nested day delay
 
 
 def _det_enum(tier):
@@ -354,9 +371,11 @@ def _det_enum(tier):
 
 
 _KD = [["now", 0], ["now", 0], ["rel", 0], ["rel", -1], ["rel", 1], ["rel", 2], ["reltd", 2], ["reltd", 3], ["rel", 5],
-       ["abs", 0], ["abs", 2], ["abse", 3], ["absw", 4], ["abs", 6], ["absw", 1], ["abse", 2]]  # fmt: skip
+       ["abs", 0], ["abs", 2], ["abse", 3], ["absw", 4], ["abs", 6], ["absw", 1], ["abse", 2],
+       ["rel", DAY + 2], ["reltd", DAY + 1], ["rel", 2 * DAY], ["reltd", 3 * DAY], ["rel", 90_000_000], ["reltd", DAY],
+       ["abs", DAY + 3], ["abse", 2 * DAY], ["absw", 2 * DAY + 5]]  # fmt: skip
 _x = st.tuples(st.just("x"), st.integers(0, 7)).map(list)
-_w = st.tuples(st.just("w"), st.sampled_from([1, 1, 2, 2, 3, 5])).map(list)
+_w = st.tuples(st.just("w"), st.sampled_from([1, 1, 2, 2, 3, 5, 1, 2, 3, DAY, DAY + 1])).map(list)
 _leaf = st.builds(lambda k: ["s", k[0], k[1], []], st.sampled_from(_KD))
 _s = st.builds(lambda k, b: ["s", k[0], k[1], b], st.sampled_from(_KD), st.lists(st.one_of(_leaf, _x, _w), max_size=2))
 # gadget: schedule a delayed action, sleep (exactly / one ms short of / one ms past) its delay, dispose THAT action
@@ -364,7 +383,7 @@ _s = st.builds(lambda k, b: ["s", k[0], k[1], b], st.sampled_from(_KD), st.lists
 # the wake-up of the timer / loop thread at the same fake instant often enough
 _gadget = st.builds(
     lambda k, b, off: [["s", k[0], k[1], b], ["w", max(1, k[1] + off)], ["x", "@"]],
-    st.sampled_from([["rel", 1], ["rel", 2], ["reltd", 2], ["reltd", 3], ["rel", 5]]),
+    st.sampled_from([["rel", 1], ["rel", 2], ["reltd", 2], ["reltd", 3], ["rel", 5], ["rel", DAY + 1], ["reltd", 2 * DAY]]),
     st.lists(st.one_of(_leaf, _x), max_size=1),
     st.sampled_from([0, 0, 0, -1, 1]),
 )
@@ -397,7 +416,8 @@ _det_gen = st.builds(
     schedrun.sched_strategy(3, max_tid=6),
 )
 
-_IMM_ALPHA = [_S("now"), _S("rel", 0), _S("rel", 2), _S("reltd", -1), _S("abse", 0), _S("absw", 2), ["w", 2], _S("now", 0, [_S("rel", 1), _S("now")])]
+_IMM_ALPHA = [_S("now"), _S("rel", 0), _S("rel", 2), _S("reltd", -1), _S("abse", 0), _S("absw", 2), ["w", 2], _S("now", 0, [_S("rel", 1), _S("now")]),
+              _S("reltd", 2 * DAY)]
 
 
 def _imm_enum(tier):
